@@ -34,7 +34,23 @@ func genEndPlan(seed uint64, thorough bool) *Plan {
 			return []string{"BLMPOP", to, "1", k, "LEFT"}
 		}
 	}
-	switch g.r.IntN(4) {
+	switch g.r.IntN(9) / 2 {
+	case 4:
+		// (1 run in 9) inside MULTI a blocking command never blocks: an empty list
+		// is a nil element of the EXEC reply, at once, whatever the timeout says
+		p.Class = "multi"
+		items := []Item{cmdItem("MULTI")}
+		nq := 1 + g.r.IntN(4)
+		for i := 0; i < nq; i++ {
+			if g.chance(5) {
+				items = append(items, cmdItem("RPUSH", g.pick("q", "other"), "x"+strconv.Itoa(i)))
+				continue
+			}
+			items = append(items, Item{Args: bs(bcmd(g.pick("q", "q2", "other"), g.pick("0", "0", "1", "0.01"))...), Tag: "queued-block"})
+		}
+		items = append(items, Item{Args: bs("EXEC"), Tag: "exec-blocks"}, cmdItem("PING"))
+		by := []Item{cmdItem("LLEN", "q"), cmdItem("RPUSH", "q3", "y"), cmdItem("LLEN", "q")}
+		p.Clients = []Client{{Name: "blocker", Items: items}, {Name: "bystander", Items: by}}
 	case 0:
 		p.Class = "timeout"
 		touts := []string{"0.001", "0.05", "0.5", "1", "1.5", "2.25", "10", "0"}
@@ -200,6 +216,24 @@ func (c *endChecker) Final(w *World) *Violation {
 		return &Violation{Oracle: "block-end", Step: w.step, Fp: "block-end:" + fp, Msg: fmt.Sprintf(format, a...) + "\n" + historyText(w)}
 	}
 	isNull := func(v Value) bool { return v.K == KNil }
+	if c.plan.Class == "multi" {
+		for _, op := range w.history {
+			if op.Item.Tag == "exec-blocks" || len(op.Item.Args) > 0 && op.Item.Tag == "" {
+				if op.Return < 0 && !op.Lost {
+					return bad("blocked-inside-multi", "%s was never answered: a blocking command inside MULTI/EXEC must not block (run end: %s)", fmtArgs(strs(op.Item.Args)), w.stats.EndReason)
+				}
+			}
+			if op.Item.Tag == "exec-blocks" && op.Return >= 0 {
+				if op.Reply.K != KArray {
+					return bad("exec-reply", "EXEC answered %s", clipS(op.Reply.String(), 100))
+				}
+				if op.TReturn-op.TInvoke > 5*time.Millisecond {
+					return bad("blocked-inside-multi", "EXEC with queued blocking commands took %v of simulated time", op.TReturn-op.TInvoke)
+				}
+			}
+		}
+		return nil
+	}
 	// index ops
 	var pushed, consumed []string
 	for _, op := range w.history {
